@@ -38,6 +38,9 @@ pub struct History {
     /// labels repeat (e0 e0 e1 e1 e0 ..): equal errors recorded next to each other are still separate errors
     #[serde(default)]
     pub repeat_labels: bool,
+    /// the accumulator comes from `Accumulator::default()` instead of `Error::accumulator()`: the same armed, empty state
+    #[serde(default)]
+    pub from_default: bool,
 }
 
 fn op() -> impl Strategy<Value = Op> {
@@ -77,7 +80,7 @@ pub fn history() -> impl Strategy<Value = History> {
         ],
         0..24,
     );
-    (prop_oneof![heavy, okish], end(), prop::bool::weighted(0.3)).prop_map(|(ops, end, repeat_labels)| History { ops, end, repeat_labels })
+    (prop_oneof![heavy, okish], end(), prop::bool::weighted(0.3), prop::bool::weighted(0.25)).prop_map(|(ops, end, repeat_labels, from_default)| History { ops, end, repeat_labels, from_default })
 }
 
 /// The same histories decoded from bytes (for the coverage-guided driver).
@@ -105,7 +108,7 @@ pub fn history_from(d: &mut vmodel::dec::D) -> History {
         2 => End::IntoInner,
         _ => End::Drop,
     };
-    History { ops, end, repeat_labels: d.ratio(1, 3) }
+    History { ops, end, repeat_labels: d.ratio(1, 3), from_default: d.ratio(1, 4) }
 }
 
 fn lbl(n: usize) -> String {
@@ -122,7 +125,9 @@ struct Defuse(Option<Accumulator>);
 impl Drop for Defuse {
     fn drop(&mut self) {
         if let Some(a) = self.0.take() {
-            let _ = a.into_inner();
+            // (leaked on purpose: neither the drop bomb nor an `into_inner` that panics may fire while a reported
+            // failure - or a panic of the operation under test - unwinds through here)
+            std::mem::forget(a);
         }
     }
 }
@@ -130,7 +135,16 @@ impl Drop for Defuse {
 /// Interpret the history against the real accumulator and the model at once.
 /// Returns Err on the first divergence.
 pub fn check(ctx: &Ctx, h: &History) -> Result<(), Fail> {
-    let mut guard = Defuse(Some(Error::accumulator()));
+    // an operation that panics where the contract says it returns (say, on an accumulator that is not armed) is a
+    // violation of the contract, not a failure of the harness
+    match catch(|| check_inner(ctx, h)) {
+        Ok(r) => r,
+        Err(p) => Err(Fail::new("c05:operation-panicked", format!("an accumulator operation panicked: {}", p))),
+    }
+}
+
+fn check_inner(ctx: &Ctx, h: &History) -> Result<(), Fail> {
+    let mut guard = Defuse(Some(if h.from_default { darling_core::error::Accumulator::default() } else { Error::accumulator() }));
     macro_rules! acc {
         () => {
             guard.0.as_mut().expect("live accumulator")
@@ -484,6 +498,7 @@ fn unwind_probes(ctx: &Ctx, count: usize) -> bool {
             ops: vec![Op::Push; recorded],
             end: End::DropDuringUnwind,
             repeat_labels: false,
+            from_default: false,
         };
         ctx.nontrivial(&(recorded, mode, "unwind"));
         ctx.class("end:DropDuringUnwind");
@@ -511,16 +526,16 @@ fn unwind_probes(ctx: &Ctx, count: usize) -> bool {
 
 fn regress_cases() -> Vec<History> {
     vec![
-        History { ops: vec![], end: End::Finish, repeat_labels: false },
-        History { ops: vec![], end: End::Drop, repeat_labels: false },
-        History { ops: vec![Op::Push], end: End::Drop, repeat_labels: false },
-        History { ops: vec![Op::Push, Op::HandleErr, Op::Extend(2)], end: End::Drop, repeat_labels: false },
-        History { ops: vec![Op::Push], end: End::Finish, repeat_labels: false },
-        History { ops: vec![Op::Checkpoint, Op::Push, Op::Checkpoint], end: End::Finish, repeat_labels: false },
-        History { ops: vec![Op::Checkpoint, Op::Checkpoint], end: End::Drop, repeat_labels: false },
-        History { ops: vec![Op::Extend(3), Op::HandleInErr, Op::PushBundle(2)], end: End::FinishWith(7), repeat_labels: false },
-        History { ops: vec![Op::HandleOk(1), Op::HandleInOk(2), Op::Extend(0)], end: End::FinishWith(9), repeat_labels: false },
-        History { ops: vec![Op::Push, Op::Extend(1)], end: End::IntoInner, repeat_labels: false },
+        History { ops: vec![], end: End::Finish, repeat_labels: false, from_default: false },
+        History { ops: vec![], end: End::Drop, repeat_labels: false, from_default: false },
+        History { ops: vec![Op::Push], end: End::Drop, repeat_labels: false, from_default: false },
+        History { ops: vec![Op::Push, Op::HandleErr, Op::Extend(2)], end: End::Drop, repeat_labels: false, from_default: false },
+        History { ops: vec![Op::Push], end: End::Finish, repeat_labels: false, from_default: false },
+        History { ops: vec![Op::Checkpoint, Op::Push, Op::Checkpoint], end: End::Finish, repeat_labels: false, from_default: false },
+        History { ops: vec![Op::Checkpoint, Op::Checkpoint], end: End::Drop, repeat_labels: false, from_default: false },
+        History { ops: vec![Op::Extend(3), Op::HandleInErr, Op::PushBundle(2)], end: End::FinishWith(7), repeat_labels: false, from_default: false },
+        History { ops: vec![Op::HandleOk(1), Op::HandleInOk(2), Op::Extend(0)], end: End::FinishWith(9), repeat_labels: false, from_default: false },
+        History { ops: vec![Op::Push, Op::Extend(1)], end: End::IntoInner, repeat_labels: false, from_default: false },
     ]
 }
 
